@@ -24,9 +24,9 @@ import (
 	"github.com/brewlin/net-protocol/stack"
 )
 
-// inputs that exhibit a recorded finding are generated only when the finding is listed in
-// known_findings.json (lib/specs/C12.py passes the flags)
-var ndpSN, ndpMC, ndpOpt bool
+// inputs that exhibit the recorded finding C12-ndp-solicited-node-not-joined are generated only when
+// it is listed in known_findings.json (lib/specs/C12.py passes the flag)
+var ndpSN bool
 
 var (
 	o6a   = []byte{0x20, 0x01, 0x0d, 0xb8, 0, 0, 0, 0, 0, 0, 0, 0, 0, 0, 0, 1}
@@ -101,7 +101,10 @@ func has(l [][]byte, a []byte) bool {
 	return false
 }
 
-// finding classifies the INPUT only: which recorded finding (if any) this packet would exhibit.
+// finding classifies the INPUT only: "sn" = a solicitation for an own unicast address sent to the
+// target's solicited-node group, which the NIC has not joined (the recorded finding); "mc" = the target
+// is a group the NIC holds; "opt" = a link-layer address option that contradicts the frame's
+// link-layer source (the last two are ordinary cases, counted for the metadata line).
 func (c ndpCase) finding() string {
 	p := c.pkt
 	if len(p) < 64 || p[6] != 58 {
@@ -125,17 +128,7 @@ func (c ndpCase) finding() string {
 	return ""
 }
 
-func (c ndpCase) allowed() bool {
-	switch c.finding() {
-	case "sn":
-		return ndpSN
-	case "mc":
-		return ndpMC
-	case "opt":
-		return ndpOpt
-	}
-	return true
-}
+func (c ndpCase) allowed() bool { return c.finding() != "sn" || ndpSN }
 
 func intsZ(l []int) string {
 	s := make([]string, len(l))
@@ -358,9 +351,7 @@ func runNdp(r *gen.Rng, n int) {
 			runNdpCase(c)
 		}
 		for _, sm := range [][]byte{{}, {1, 2, 3}, {0xff, 0xff, 0xff, 0xff, 0xff, 0xff}, {0x33, 0x33, 0xff, 0, 0, 1}} {
-			m := base
-			m.opts = []byte{0xee, 1, 0, 0, 0, 0, 0, 0} // no link-layer address option to contradict
-			c := std(joined, m.packet())
+			c := std(joined, base.packet())
 			c.srcMAC = sm
 			runNdpCase(c)
 		}
@@ -439,11 +430,11 @@ func runNdp(r *gen.Rng, n int) {
 		for k := r.Intn(3); k > 0; k-- {
 			switch r.Intn(5) {
 			case 0: // one byte anywhere but the next-header field
-				if j := r.Intn(len(p)); j != 6 {
+				if j := r.Intn(len(p)); j != 6 && j < len(p) {
 					p[j] = byte(r.U32())
 				}
 			case 1:
-				if j := r.Intn(len(p)); j != 6 {
+				if j := r.Intn(len(p)); j != 6 && j < len(p) {
 					p[j] ^= 1 << uint(r.Intn(8))
 				}
 			case 2: // truncate, payload length adjusted
@@ -484,9 +475,9 @@ func runNdp(r *gen.Rng, n int) {
 		}
 		runNdpCase(c)
 	}
-	fmt.Fprintf(out, "# ndp cases: answered=%d learned-only=%d silent=%d panicked=%d; inputs of recorded findings run: sn=%d mc=%d opt=%d, skipped=%d\n",
+	fmt.Fprintf(out, "# ndp cases: answered=%d learned-only=%d silent=%d panicked=%d; solicited-node group not joined (recorded finding) run=%d skipped=%d; joined multicast target=%d, option contradicting the link source=%d\n",
 		ndpStats["answered"], ndpStats["learned"], ndpStats["silent"], ndpStats["panicked"],
-		ndpStats["finding-sn"], ndpStats["finding-mc"], ndpStats["finding-opt"], ndpStats["gated"])
+		ndpStats["finding-sn"], ndpStats["gated"], ndpStats["finding-mc"], ndpStats["finding-opt"])
 	runNdpReq(r, n/8)
 }
 
